@@ -284,8 +284,9 @@ func c08Handle(c *cx) {
 	c.r.Note("C08.4: %d early exits of the from search examined", nb)
 }
 
-func c08Reader(c *cx) {
-	id := "C08.2"
+func c08Reader(c *cx) { c08ReaderAs(c, "C08.2") }
+
+func c08ReaderAs(c *cx, id string) {
 	f := c.fn(id, "internal/stream", "(*reader).Token")
 	if f == nil {
 		return
@@ -343,6 +344,35 @@ func c08Reader(c *cx) {
 			c.r.Check(id, f, "end element handed on", "G: an end element is handed on only if it is not in the stream namespace", rs.Pos(), okd, "end element returned without the namespace test")
 		}
 	}
+	// no path hands on a token that is a processing instruction, a comment or
+	// a directive, at any depth: assume the token has that type (the edges
+	// that contradict it are cut) and ask whether a token-returning return
+	// stays reachable. This covers a return placed before the type switch.
+	for _, t := range []string{"encoding/xml.ProcInst", "encoding/xml.Comment", "encoding/xml.Directive"} {
+		assume := []string{"istype(*;" + t + ")"}
+		for _, o := range []string{"encoding/xml.CharData", "encoding/xml.StartElement", "encoding/xml.EndElement", "encoding/xml.ProcInst", "encoding/xml.Comment", "encoding/xml.Directive"} {
+			if o != t {
+				assume = append(assume, "!istype(*;"+o+")")
+			}
+		}
+		cut := g.CutFor(assume...)
+		bad := ""
+		nret := 0
+		for _, rs := range g.Returns {
+			if len(rs.Results) != 2 {
+				continue
+			}
+			pt, _ := g.Where(rs)
+			if g.NilnessOf(rs.Results[0], pt) == -1 || g.RetKindOf(rs) == eng.RetError {
+				continue
+			}
+			nret++
+			if g.Reachable(g.Entry(), pt, cut, nil) {
+				bad = "the return at " + c.p.Pos(rs.Pos()) + " hands a token on and is reachable when the token is a " + t
+			}
+		}
+		c.r.Check(id, f, "no "+t+" is handed on", "G: on no path (whatever the depth) does a "+t+" token reach the caller: every token-returning return is unreachable under the assumption that the token has this type", f.Pos(), bad == "" && nret > 0, bad)
+	}
 	// top-level chardata
 	nch := 0
 	for _, ce := range g.EdgesMatching("!internal/stream.isWhitespace(*)") {
@@ -399,9 +429,9 @@ func c08Reader(c *cx) {
 				bad = ""
 			}
 			if g.RetKindOf(rs) != eng.RetError {
-				if ok, _ := g.Dominated(pt, "eq(encoding/xml.Decoder.DecodeElement[*](*),nil)"); ok {
-					bad = "a received stream error yields a non-error return"
-				}
+				_ = pt
+				bad = "the stream error arm reaches the return at " + c.p.Pos(rs.Pos()) + " without an error: the element is handed on as a token instead of being returned as the error"
+				break
 			}
 		}
 		c.dom(id, f, g.Blocks[g.EdgeTarget(ce.E).B].Nodes[0], "stream error arm", []string{"eq(*.Name.Space,stream.NS)"})
